@@ -192,7 +192,10 @@ func runCook(c *ctx) {
 			}
 		}
 		// error paths (C17 chains): a cookie-keeping browser follows 307s while the cause persists
-		causes := []string{"callback-nocookie", "callback-badstate", "callback-idpdown", "callback-idp4xx", "logout-unknownhost", "login-pardown"}
+		s.replicaKey = []byte("K2-another-deployment-key-32byte")
+		rpOtherKey := s.replica("K2")
+		s.replicaKey = nil
+		causes := []string{"callback-nocookie", "callback-badstate", "callback-idpdown", "callback-idp4xx", "logout-unknownhost", "callback-otherkey", "login-pardown"}
 		for _, cause := range causes {
 			if cause == "login-pardown" {
 				continue // exercised by the PAR variant below
@@ -214,6 +217,7 @@ func runCook(c *ctx) {
 				unknownHost = "unknown." + strings.TrimPrefix(cc.domain, ".") // inside the cookie domain: cookies keep working
 			}
 			// failing returns the next failing request of this cause (a browser that is sent round the loop again)
+			hopNo := 0
 			failing := func() string {
 				switch cause {
 				case "callback-nocookie":
@@ -221,7 +225,11 @@ func runCook(c *ctx) {
 				case "logout-unknownhost":
 					return iu.Scheme + "://" + unknownHost + ipath + "/oauth2/logout"
 				}
-				r1 := fb.do(rp, "GET", base+"/oauth2/login", nav)
+				lrp := rp
+				if cause == "callback-otherkey" && hopNo%2 == 1 {
+					lrp = rpOtherKey
+				}
+				r1 := fb.do(lrp, "GET", base+"/oauth2/login", nav)
 				lu, err := url.Parse(r1.Location)
 				if err != nil || r1.Status != 302 {
 					return ""
@@ -236,7 +244,12 @@ func runCook(c *ctx) {
 			var statuses, retryVals []string
 			cur := failing()
 			for hop := 0; hop < 7 && cur != ""; hop++ {
-				resp := fb.do(rp, "GET", cur, nav)
+				hrp := rp
+				if cause == "callback-otherkey" && hop%2 == 0 {
+					hrp = rpOtherKey // replicas holding different deployment keys behind one ingress: the login was served by one, its callback lands on the other
+				}
+				resp := fb.do(hrp, "GET", cur, nav)
+				hopNo = hop + 1
 				cc.emitCookies(c, "error:"+cause, resp, ipath)
 				statuses = append(statuses, strconv.Itoa(resp.Status))
 				v := "-"
